@@ -285,7 +285,9 @@ impl Model {
 
 // ---------------------------------------------------------------- generator
 
-const METHOD_NAMES: &[&str] = &["ma", "mb", "mc", "same", "get", "show"];
+// the second half are names the Go back end has to escape (keywords, predeclared identifiers, init)
+const METHOD_NAMES: &[&str] =
+    &["ma", "mb", "mc", "same", "get", "show", "range", "len", "new", "copy", "default", "select", "init", "map", "func", "var"];
 const STRS: &[&str] = &["z", "ab", "", "q7", "hello"];
 
 struct Gen<'a, 'b> {
@@ -847,6 +849,12 @@ fn render_program(m: &Model, g: &mut Gen, hz: &str, mode: Mode) -> (Prog, Option
                 };
                 // 1. UFCS on the concrete receiver
                 emit(&mut p, "u", format!("{tname}::{mn}(x{vi}{al})"));
+                // 1b. the same call inside a closure that captures the receiver
+                if g.d.chance(70) {
+                    let cv = format!("cu{vi}_{tid}_{mn}");
+                    p.lets.push(format!("    let {cv} = || {tname}::{mn}(x{vi}{al});"));
+                    emit(&mut p, "cu", format!("{cv}()"));
+                }
                 // 2. bounded generics
                 let key = format!("{tid}_{mn}");
                 if g.d.chance(200) {
@@ -900,6 +908,12 @@ fn render_program(m: &Model, g: &mut Gen, hz: &str, mode: Mode) -> (Prog, Option
                         }
                         emit(&mut p, "dl", format!("{tname}::{mn}(dx{vi}_{tid}{al})"));
                         planted |= is_box;
+                        // a closure whose only use of the captured trait object is as the receiver
+                        if g.d.chance(110) {
+                            let cv = format!("cd{vi}_{tid}_{mn}");
+                            p.lets.push(format!("    let {cv} = || {tname}::{mn}(dx{vi}_{tid}{al});"));
+                            emit(&mut p, "cd", format!("{cv}()"));
+                        }
                         if g.d.chance(128) {
                             p.helpers.insert(dk.clone(), dfn.clone());
                             emit(&mut p, "dd", format!("{dk}(dx{vi}_{tid}{al})"));
@@ -1325,7 +1339,7 @@ fn files_of(v: &Value) -> Vec<(String, String)> {
 fn nontrivial_groups(groups: &[Value]) -> bool {
     groups.iter().any(|g| {
         let forms: Vec<&str> = g["forms"].as_array().map(|a| a.iter().filter_map(|x| x.as_str()).collect()).unwrap_or_default();
-        forms.len() >= 3 && forms.iter().any(|f| matches!(*f, "gm" | "gu" | "gg" | "pr" | "h" | "h-ufcs" | "dp" | "dl" | "dd" | "dp-lit" | "ret" | "ret-dp"))
+        forms.len() >= 3 && forms.iter().any(|f| matches!(*f, "gm" | "gu" | "gg" | "pr" | "h" | "h-ufcs" | "dp" | "dl" | "dd" | "dp-lit" | "ret" | "ret-dp" | "cu" | "cd"))
     })
 }
 
